@@ -1,0 +1,28 @@
+//go:build verif
+
+package stream
+
+import "sync/atomic"
+
+// Yield points for the verification harness (/verif, properties C18 and C19).
+// verifYieldPoint is called at the synchronisation points of the ingest and
+// lifecycle protocols. When no scheduler is installed it returns immediately, so
+// a plain `-tags verif` build behaves like the baseline. Without the tag the twin
+// in verif_yield_off.go declares an empty inlinable function.
+
+var verifYield atomic.Pointer[func(point string)]
+
+func verifYieldPoint(point string) {
+	if f := verifYield.Load(); f != nil {
+		(*f)(point)
+	}
+}
+
+// VerifSetYield installs (or, with nil, removes) the process-global scheduler hook.
+func VerifSetYield(f func(point string)) {
+	if f == nil {
+		verifYield.Store(nil)
+		return
+	}
+	verifYield.Store(&f)
+}
